@@ -1,5 +1,7 @@
 import FranzVerif.Model.Consumer
 import FranzVerif.Proof.Consumer
+import FranzVerif.Proof.ConsumerInv
+import FranzVerif.Proof.ConsumerFacts
 /-! C04 — a direct consumer returns each record once, in offset order. Theorems over ALL accepted
 histories of `Model.Consumer`; the tie is the history correspondence of the `cons` scenarios. -/
 namespace Props.C04
@@ -9,17 +11,26 @@ open Model.Consumer Proof.Consumer
 returned twice and nothing out of order, across any number of polls. -/
 theorem returned_offsets_strictly_increase (c : Cfg) (h : List Ev) (s : St) (hacc : run c {} h = some s) (part : Nat) :
     (returnedOffsets part h).Pairwise (· < ·) := by
-  sorry
+  exact (inv_of_run hacc).incr part
 
 /-- Nothing before the start position is returned. -/
 theorem nothing_before_start (c : Cfg) (h : List Ev) (s : St) (hacc : run c {} h = some s) :
     ∀ r ∈ returnedOf h, c.start ≤ r.2.1 := by
-  sorry
+  exact (inv_of_run hacc).start
 
 /-- At a quiescent point every returned data record is an acknowledged record at its acknowledged partition and offset. -/
 theorem returned_records_are_acknowledged (c : Cfg) (h : List Ev) (s : St) (hacc : run c {} (h ++ [Ev.quiesce]) = some s) :
     ∀ r ∈ returnedOf h, r.2.2.2 = false → ∃ txn, (r.2.2.1, r.1, r.2.1, txn) ∈ producedOf h := by
-  sorry
+  obtain ⟨s₁, h1, hchk⟩ := run_snoc hacc
+  have hi := inv_of_run h1
+  have hq := quiesce_check hchk
+  intro r hr hctl
+  obtain ⟨n, hn⟩ := hi.mem_ret hr
+  have hs := hq.ack _ hn hctl
+  obtain ⟨k, hk⟩ := Option.isSome_iff_exists.1 hs
+  have hm := txnOf_some_mem hk
+  rw [hi.prod] at hm
+  exact ⟨k, List.mem_reverse.1 hm⟩
 
 /-- Completeness under read_uncommitted: at a quiescent point of a complete scenario every acknowledged
 record at or after the start position has been returned, exactly once. -/
@@ -28,6 +39,47 @@ theorem every_record_returned_exactly_once (c : Cfg) (h : List Ev) (s : St) (hac
     (id : Id) (part off txn : Nat) (hp : (id, part, off, txn) ∈ producedOf h) (hoff : c.start ≤ off) :
     ((returnedOf h).filter (fun r => r.1 == part && r.2.1 == off)).length = 1 ∧
     ∃ ctl, (part, off, id, ctl) ∈ returnedOf h := by
-  sorry
+  obtain ⟨s₁, h1, hchk⟩ := run_snoc hacc
+  have hi := inv_of_run h1
+  have hq := quiesce_check hchk
+  have hm : (id, part, off, txn) ∈ s₁.prod := by rw [hi.prod]; exact List.mem_reverse.2 hp
+  obtain ⟨r, hr, r1, r2, r3⟩ := hq.complete (by rw [hi.incomplete]; exact hcomplete) _ hm hoff (Or.inl hc)
+  have hmem : (part, off, id, r.2.2.2.1) ∈ returnedOf h := by
+    have := hi.ret_mem hr
+    simpa only [retKey, r1, r2, r3] using this
+  refine ⟨Nat.le_antisymm (returned_place_at_most_once (hi.incr part) off) ?_, _, hmem⟩
+  exact List.length_pos_of_mem (List.mem_filter.2 ⟨hmem, by simp⟩)
+
+/-- Non-vacuity: an accepted read_uncommitted history ending at a quiescent point. Start position 1;
+two partitions; records returned over two polls (partition 0: offsets 1, 2 — offset 0 is before the
+start position; partition 1: offset 5), fetch hooks paired, gauge back to 0. The hypotheses of all four
+theorems hold for it (`isIncomplete = false`). -/
+example : accepts { committed := false, keepCtl := false, start := 1 }
+    [.produced 1 0 0 0, .produced 2 0 1 0, .produced 3 0 2 0, .produced 4 1 5 0,
+     .pollStart, .hookBuf 0 1, .hookBuf 1 5, .returned 0 1 2 false, .hookUnbuf 0 1 true,
+     .returned 1 5 4 false, .hookUnbuf 1 5 true, .pollEnd,
+     .pollStart, .hookBuf 0 2, .returned 0 2 3 false, .hookUnbuf 0 2 true, .pollEnd,
+     .gauge 0, .quiesce] = true := by decide
+
+example : isIncomplete
+    [.produced 1 0 0 0, .produced 2 0 1 0, .produced 3 0 2 0, .produced 4 1 5 0,
+     .pollStart, .hookBuf 0 1, .hookBuf 1 5, .returned 0 1 2 false, .hookUnbuf 0 1 true,
+     .returned 1 5 4 false, .hookUnbuf 1 5 true, .pollEnd,
+     .pollStart, .hookBuf 0 2, .returned 0 2 3 false, .hookUnbuf 0 2 true, .pollEnd,
+     .gauge 0] = false := by decide
+
+/-- The monitor refuses a record returned a second time in a later poll, … -/
+example : accepts { committed := false, keepCtl := false, start := 0 }
+    [.produced 1 0 0 0, .pollStart, .returned 0 0 1 false, .pollEnd,
+     .pollStart, .returned 0 0 1 false, .pollEnd] = false := by decide
+
+/-- … a record skipped (offset 1 never returned), … -/
+example : accepts { committed := false, keepCtl := false, start := 0 }
+    [.produced 1 0 0 0, .produced 2 0 1 0, .produced 3 0 2 0,
+     .pollStart, .returned 0 0 1 false, .returned 0 2 3 false, .pollEnd, .gauge 0, .quiesce] = false := by decide
+
+/-- … and a returned record that was never acknowledged at that place. -/
+example : accepts { committed := false, keepCtl := false, start := 0 }
+    [.produced 1 0 0 0, .pollStart, .returned 0 1 1 false, .pollEnd, .gauge 0, .quiesce] = false := by decide
 
 end Props.C04
